@@ -856,7 +856,17 @@ func RunC08(c *Ctx, r *Report) {
 	ec := c.invokeOnField(gen, 0, "EncrKInfo", "GetKeyLength")
 	ac := c.invokeOnField(gen, 0, "IntegKInfo", "GetKeyLength")
 	pcalls := c.callsTo(gen, prfPlus)
-	if len(ec) != 1 || len(ac) != 1 || len(pcalls) != 1 {
+	// a getter of the immutable descriptor may be called more than once (an accessor inlined twice): every call
+	// then has the same linear form (one atom per receiver object), and so have the φ-nodes that select 0 / A
+	sameLF := func(cs []*ssa.Call) bool {
+		for _, x := range cs[1:] {
+			if f.LFOf(x).key() != f.LFOf(cs[0]).key() {
+				return false
+			}
+		}
+		return true
+	}
+	if len(ec) < 1 || len(ac) < 1 || len(pcalls) != 1 || !sameLF(ec) || !sameLF(ac) {
 		r.bad(rule1, "key lengths and prf+ call", c.Pos(gen.Pos()), fmt.Sprintf("GetKeyLength calls %d/%d, PrfPlus calls %d", len(ec), len(ac), len(pcalls)))
 		return
 	}
@@ -865,12 +875,23 @@ func RunC08(c *Ctx, r *Report) {
 	// A is a φ(0, IntegKInfo.GetKeyLength()) selected by IntegKInfo != nil
 	var Aval ssa.Value
 	okA := false
-	for _, ref := range *ac[0].Referrers() {
-		if p, ok := ref.(*ssa.Phi); ok && len(p.Edges) == 2 {
-			for _, e := range p.Edges {
-				if k, ok := e.(*ssa.Const); ok {
-					if v, _ := constInt64(k.Value); v == 0 {
-						Aval = p
+	for _, acall := range ac {
+		for _, ref := range *acall.Referrers() {
+			if p, ok := ref.(*ssa.Phi); ok && len(p.Edges) == 2 {
+				for _, e := range p.Edges {
+					if k, ok := e.(*ssa.Const); ok {
+						if v, _ := constInt64(k.Value); v == 0 {
+							if Aval == nil || f.LFOf(p).key() == f.LFOf(Aval).key() {
+								if Aval == nil {
+									Aval = p
+									ac[0] = acall
+								}
+							} else {
+								Aval = nil
+								r.bad(rule1, "key lengths and prf+ call", c.Pos(gen.Pos()), "two different selections of the integrity key length")
+								return
+							}
+						}
 					}
 				}
 			}
